@@ -598,7 +598,18 @@ class RDBStorage(BaseStorage, BaseHeartbeat):
             distribution_json=distributions.distribution_to_json(distribution),
         )
 
-        trial_param.check_and_add(session, trial.study_id)
+        existing_param = models.TrialParamModel.find_by_trial_and_param_name(
+            trial, param_name, session
+        )
+        if existing_param is None:
+            trial_param.check_and_add(session, trial.study_id)
+        else:
+            # Overwrite the stored parameter as the other storages do.
+            trial_param._check_compatibility_with_previous_trial_param_distributions(
+                session, trial.study_id
+            )
+            existing_param.param_value = trial_param.param_value
+            existing_param.distribution_json = trial_param.distribution_json
 
     def get_trial_param(self, trial_id: int, param_name: str) -> float:
         with _create_scoped_session(self.scoped_session) as session:
